@@ -58,6 +58,22 @@ def CacheOK (z : Zone) (c : ZRng) : Prop :=
 theorem wrap32_of_I32 (t : Int) (h : I32 t) : wrap32 t = t := by
   unfold I32 intMin intMax at h; unfold wrap32; omega
 
+theorem clamp32_of_I32 (t : Int) (h : I32 t) : clamp32 t = t := by
+  unfold I32 at h; unfold clamp32
+  rw [if_neg (by omega), if_neg (by omega)]
+
+theorem clamp32_I32 (t : Int) : I32 (clamp32 t) := by
+  unfold I32 clamp32
+  by_cases h1 : t > intMax
+  · rw [if_pos h1]; decide
+  · rw [if_neg h1]
+    by_cases h2 : t < intMin
+    · rw [if_pos h2]; decide
+    · rw [if_neg h2]; omega
+
+theorem clamp32_idem (t : Int) : clamp32 (clamp32 t) = clamp32 t :=
+  clamp32_of_I32 _ (clamp32_I32 t)
+
 theorem getD_of_lt {α} (l : List α) (i : Nat) (d : α) (h : i < l.length) : l.getD i d = l[i] := by
   rw [List.getD_eq_getElem?_getD, List.getElem?_eq_getElem h, Option.getD_some]
 
